@@ -96,6 +96,23 @@ func runOSBase(c *Ctx, prop string) {
 				}
 			}()
 			check(fmt.Sprintf("os-fl%d", m), "OpenFile", fmt.Sprintf("OpenFile(%q, %#x) and writes through the handle", name, f))
+			// transparency: a flag word without any write/create bit is forwarded as it is, so the
+			// wrapper answers as the source does (O_DIRECTORY on a file, O_EXCL alone, ...)
+			if prop == "C07" && f&(0x1|0x2|0x40|0x200|0x400) == 0 {
+				direct := afero.NewBasePathFs(afero.NewOsFs(), dir)
+				hd, ed := direct.OpenFile(name, f, 0o644)
+				if hd != nil {
+					hd.Close()
+				}
+				hw, ew := mk().OpenFile(name, f, 0o644)
+				if hw != nil {
+					hw.Close()
+				}
+				c.Count("osbase.transparent-open")
+				if (ed == nil) != (ew == nil) {
+					c.Oracle("FAIL os-tr%d read-open-not-transparent:os-base OpenFile(%q, %#x): the source alone answers %v, through ReadOnlyFs %v", m, name, f, ed, ew)
+				}
+			}
 		}
 	}
 	muts := []struct {
